@@ -236,6 +236,9 @@ def _finish(prop, pid, tier, seed, agg, wall, n_units):
                 v["monitor"], v["key"], json.dumps(v["detail"], default=str)[:600]))
         if len(replay_paths) >= 12:
             break
+    if new_viol:
+        bykey = collections.Counter(v["key"] for v, _ in new_viol)
+        lines.append("violation keys: " + json.dumps(dict(bykey.most_common(40))))
     for kid, (k, cnt) in known_hit.items():
         lines.append("KNOWN-FINDING: property=%s %s [%s, %d occurrences this run]" % (
             pid, k["what"], kid, cnt))
